@@ -95,6 +95,23 @@ def Pc.inFlight : Pc → Bool
   | .strikeInc _ => true
   | _ => false
 
+def Pc.notStart : Pc → Bool
+  | .start => false
+  | _ => true
+
+/-- `tryAgain` only says yes while `retries < load_balancing.retries`: the retry counter never
+    exceeds the configured number, and the attempts made never exceed it by more than one -/
+theorem decided_retry_ok (q : Req) (e : ErrKind) (c : Bool) (h1 : q.retries ≤ q.par.retries)
+    (h2 : q.incs ≤ q.retries + 1) :
+    (q.decided e c).retries ≤ (q.decided e c).par.retries ∧
+      (q.decided e c).incs ≤ (q.decided e c).retries + b2n (q.decided e c).pc.notStart := by
+  unfold Req.decided
+  split
+  next ht =>
+    simp [tryAgain] at ht
+    simp [Pc.notStart]; omega
+  next => simp [Pc.notStart, b2n]; omega
+
 @[simp] theorem decided_inFlightW (o : HostId) (q : Req) (e : ErrKind) (c : Bool) : inFlightW o (q.decided e c) = 0 := by
   rcases decided_pc q e c with h | h <;> simp [inFlightW, h, Pc.inFlightOn, b2n]
 
@@ -151,18 +168,19 @@ structure Inv (s : State) : Prop where
   forgotten_due : ∀ e ∈ s.log, e.st = .forgotten → (e.exp ≤ s.now ∨ canceled s e.cfg = true)
   entry_ok : ∀ e ∈ s.log, e.t0 ≤ s.now ∧ 0 < e.dur
   req_ok : ∀ q ∈ s.reqs, q.incs = q.hist.length + b2n q.pc.inFlight
+  retry_ok : ∀ q ∈ s.reqs, q.retries ≤ q.par.retries ∧ q.incs ≤ q.retries + b2n q.pc.notStart
   attempts_eq : ∀ o, countedAttempts s o + aboutToCount s o = failedAttempts s o
   src_countable : ∀ e ∈ s.log, ∀ out, e.src = some out → out.countable = true
 
 theorem inv_init : Inv init := by
-  refine ⟨?_, ?_, ?_, ?_, ?_, ?_, ?_, ?_⟩ <;> simp [init, sendingCount, pendingForgetters, countedNotSpawned,
+  refine ⟨?_, ?_, ?_, ?_, ?_, ?_, ?_, ?_, ?_⟩ <;> simp [init, sendingCount, pendingForgetters, countedNotSpawned,
     spawners, countedAttempts, aboutToCount, failedAttempts, total]
 
 /-- steps that only touch configurations / the pool: cfgs may change, `canceled` only grows -/
 theorem inv_cfg_only {s s' : State} (hi : Inv s)
     (h1 : s'.now = s.now) (h2 : s'.inflight = s.inflight) (h3 : s'.fails = s.fails) (h4 : s'.reqs = s.reqs)
     (h5 : s'.log = s.log) (hc : ∀ x, canceled s x = true → canceled s' x = true) : Inv s' := by
-  refine ⟨?_, ?_, ?_, ?_, ?_, ?_, ?_, ?_⟩
+  refine ⟨?_, ?_, ?_, ?_, ?_, ?_, ?_, ?_, ?_⟩
   · intro o; simp only [sendingCount, h2, h4]; exact hi.inflight_eq o
   · intro o; simp only [pendingForgetters, h3, h5]; exact hi.fails_eq o
   · intro o c; simp only [countedNotSpawned, spawners, h4, h5]; exact hi.counted_eq o c
@@ -173,6 +191,7 @@ theorem inv_cfg_only {s s' : State} (hi : Inv s)
     · right; exact hc _ h
   · intro e he; rw [h5] at he; rw [h1]; exact hi.entry_ok e he
   · intro q hq; rw [h4] at hq; exact hi.req_ok q hq
+  · intro q hq; rw [h4] at hq; exact hi.retry_ok q hq
   · intro o; simp only [countedAttempts, aboutToCount, failedAttempts, h4, h5]; exact hi.attempts_eq o
   · intro e he; rw [h5] at he; exact hi.src_countable e he
 
@@ -242,7 +261,7 @@ theorem inv_delete {s s' : State} {c k} (hi : Inv s) (hs : stepDelete s c k = so
   next => simp at hs
 
 theorem inv_tick {s : State} (hi : Inv s) : Inv { s with now := s.now + 1 } := by
-  refine ⟨hi.inflight_eq, hi.fails_eq, hi.counted_eq, ?_, ?_, hi.req_ok, hi.attempts_eq, hi.src_countable⟩
+  refine ⟨hi.inflight_eq, hi.fails_eq, hi.counted_eq, ?_, ?_, hi.req_ok, hi.retry_ok, hi.attempts_eq, hi.src_countable⟩
   · intro e he hf
     rcases hi.forgotten_due e he hf with h | h
     · left; show e.exp ≤ s.now + 1; omega
@@ -257,7 +276,7 @@ theorem inv_newReq {s s' : State} {c get} (hi : Inv s) (hs : stepNewReq s c get 
   split at hs
   next cs hcs =>
     simp at hs; subst hs
-    refine ⟨?_, hi.fails_eq, ?_, hi.forgotten_due, hi.entry_ok, ?_, ?_, hi.src_countable⟩
+    refine ⟨?_, hi.fails_eq, ?_, hi.forgotten_due, hi.entry_ok, ?_, ?_, ?_, hi.src_countable⟩
     · intro o
       have h1 := hi.inflight_eq o
       simp only [sendingCount] at h1 ⊢
@@ -272,6 +291,10 @@ theorem inv_newReq {s s' : State} {c get} (hi : Inv s) (hs : stepNewReq s c get 
       rcases List.mem_append.mp hq with hm | hm
       · exact hi.req_ok q hm
       · simp at hm; subst hm; simp [Pc.inFlight, b2n]
+    · intro q hq
+      rcases List.mem_append.mp hq with hm | hm
+      · exact hi.retry_ok q hm
+      · simp at hm; subst hm; simp [Pc.notStart, b2n]
     · intro o
       have h1 := hi.attempts_eq o
       simp only [countedAttempts, aboutToCount, failedAttempts] at h1 ⊢
@@ -286,7 +309,7 @@ theorem inv_dispatch {s s' : State} {r h} (hi : Inv s) (hs : stepDispatch s r h 
     split at hs
     next hpc =>
       simp at hs; subst hs
-      refine ⟨?_, hi.fails_eq, ?_, hi.forgotten_due, hi.entry_ok, ?_, ?_, hi.src_countable⟩
+      refine ⟨?_, hi.fails_eq, ?_, hi.forgotten_due, hi.entry_ok, ?_, ?_, ?_, hi.src_countable⟩
       · intro o
         have h1 := hi.inflight_eq o
         have h2 := total_set (inFlightW o) s.reqs r { q with pc := .sending h, incs := q.incs + 1 } q hq
@@ -305,6 +328,12 @@ theorem inv_dispatch {s s' : State} {r h} (hi : Inv s) (hs : stepDispatch s r h 
         · subst hm
           have := hi.req_ok q (mem_of_get hq)
           simp [hpc, Pc.inFlight, b2n] at this ⊢; omega
+      · intro q' hq'
+        rcases mem_set_cases hq' with hm | hm
+        · exact hi.retry_ok q' hm
+        · subst hm
+          have := hi.retry_ok q (mem_of_get hq)
+          simp [hpc, Pc.notStart, b2n] at this ⊢; omega
       · intro o
         have h1 := hi.attempts_eq o
         have h2 := total_set (aboutToCountW o) s.reqs r { q with pc := .sending h, incs := q.incs + 1 } q hq
@@ -321,7 +350,7 @@ theorem inv_noUpstream {s s' : State} {r} (hi : Inv s) (hs : stepNoUpstream s r 
     split at hs
     next hpc =>
       simp at hs; subst hs
-      refine ⟨?_, hi.fails_eq, ?_, hi.forgotten_due, hi.entry_ok, ?_, ?_, hi.src_countable⟩
+      refine ⟨?_, hi.fails_eq, ?_, hi.forgotten_due, hi.entry_ok, ?_, ?_, ?_, hi.src_countable⟩
       · intro o
         have h1 := hi.inflight_eq o
         have h2 := total_set (inFlightW o) s.reqs r (q.decided q.keepErr (canceled s q.cfg)) q hq
@@ -341,6 +370,13 @@ theorem inv_noUpstream {s s' : State} {r} (hi : Inv s) (hs : stepNoUpstream s r 
           have := hi.req_ok q (mem_of_get hq)
           simp only [decided_incs, decided_hist, decided_inFlight]
           simp [hpc, Pc.inFlight, b2n] at this ⊢; omega
+      · intro q' hq'
+        rcases mem_set_cases hq' with hm | hm
+        · exact hi.retry_ok q' hm
+        · subst hm
+          have := hi.retry_ok q (mem_of_get hq)
+          simp [hpc, Pc.notStart] at this
+          exact decided_retry_ok q _ _ this.1 (by omega)
       · intro o
         have h1 := hi.attempts_eq o
         have h2 := total_set (aboutToCountW o) s.reqs r (q.decided q.keepErr (canceled s q.cfg)) q hq
@@ -360,7 +396,7 @@ theorem inv_strike {s s' : State} {r} (hi : Inv s) (hs : stepStrike s r = some s
       split at hs
       next hcnt =>
         simp at hs; subst hs
-        refine ⟨?_, ?_, ?_, ?_, ?_, ?_, ?_, ?_⟩
+        refine ⟨?_, ?_, ?_, ?_, ?_, ?_, ?_, ?_, ?_⟩
         · intro o
           have h1 := hi.inflight_eq o
           have h2 := total_set (inFlightW o) s.reqs r { q with pc := .strikeInc h } q hq
@@ -395,6 +431,12 @@ theorem inv_strike {s s' : State} {r} (hi : Inv s) (hs : stepStrike s r = some s
           · subst hm
             have := hi.req_ok q (mem_of_get hq)
             simp [hpc, Pc.inFlight, b2n] at this ⊢; omega
+        · intro q' hq'
+          rcases mem_set_cases hq' with hm | hm
+          · exact hi.retry_ok q' hm
+          · subst hm
+            have := hi.retry_ok q (mem_of_get hq)
+            simp [hpc, Pc.notStart, b2n] at this ⊢; omega
         · intro o
           have h1 := hi.attempts_eq o
           have h2 := total_set (aboutToCountW o) s.reqs r { q with pc := .strikeInc h } q hq
@@ -417,7 +459,7 @@ theorem inv_finish {s s' : State} {r out} (hi : Inv s) (hs : stepFinish s r out 
     split at hs
     next h hpc =>
       simp at hs; subst hs
-      refine ⟨?_, hi.fails_eq, ?_, hi.forgotten_due, hi.entry_ok, ?_, ?_, hi.src_countable⟩
+      refine ⟨?_, hi.fails_eq, ?_, hi.forgotten_due, hi.entry_ok, ?_, ?_, ?_, hi.src_countable⟩
       · intro o
         have h1 := hi.inflight_eq o
         have h2 := total_set (inFlightW o) s.reqs r { q with pc := .exited h out, hist := q.hist ++ [(h, out)] } q hq
@@ -436,6 +478,12 @@ theorem inv_finish {s s' : State} {r out} (hi : Inv s) (hs : stepFinish s r out 
         · subst hm
           have := hi.req_ok q (mem_of_get hq)
           simp [hpc, Pc.inFlight, b2n] at this ⊢; omega
+      · intro q' hq'
+        rcases mem_set_cases hq' with hm | hm
+        · exact hi.retry_ok q' hm
+        · subst hm
+          have := hi.retry_ok q (mem_of_get hq)
+          simp [hpc, Pc.notStart, b2n] at this ⊢; omega
       · intro o
         have h1 := hi.attempts_eq o
         have h2 := total_set (aboutToCountW o) s.reqs r { q with pc := .exited h out, hist := q.hist ++ [(h, out)] } q hq
@@ -459,7 +507,7 @@ theorem inv_after {s s' : State} {r} (hi : Inv s) (hs : stepAfter s r = some s')
         next hcnt =>
           -- countFailure: countFail(1), entry appended
           simp at hs; subst hs
-          refine ⟨?_, ?_, ?_, ?_, ?_, ?_, ?_, ?_⟩
+          refine ⟨?_, ?_, ?_, ?_, ?_, ?_, ?_, ?_, ?_⟩
           · intro o
             have h1 := hi.inflight_eq o
             have h2 := total_set (inFlightW o) s.reqs r { q with pc := .failInc h, lastErr := out.errKind } q hq
@@ -494,6 +542,12 @@ theorem inv_after {s s' : State} {r} (hi : Inv s) (hs : stepAfter s r = some s')
             · subst hm
               have := hi.req_ok q (mem_of_get hq)
               simp [hpc, Pc.inFlight, b2n] at this ⊢; omega
+          · intro q' hq'
+            rcases mem_set_cases hq' with hm | hm
+            · exact hi.retry_ok q' hm
+            · subst hm
+              have := hi.retry_ok q (mem_of_get hq)
+              simp [hpc, Pc.notStart, b2n] at this ⊢; omega
           · intro o
             have h1 := hi.attempts_eq o
             have h2 := total_set (aboutToCountW o) s.reqs r { q with pc := .failInc h, lastErr := out.errKind } q hq
@@ -509,7 +563,7 @@ theorem inv_after {s s' : State} {r} (hi : Inv s) (hs : stepAfter s r = some s')
         next hcnt =>
           -- countFailure is a no-op: straight to tryAgain
           simp at hs; subst hs
-          refine ⟨?_, hi.fails_eq, ?_, hi.forgotten_due, hi.entry_ok, ?_, ?_, hi.src_countable⟩
+          refine ⟨?_, hi.fails_eq, ?_, hi.forgotten_due, hi.entry_ok, ?_, ?_, ?_, hi.src_countable⟩
           · intro o
             have h1 := hi.inflight_eq o
             have h2 := total_set (inFlightW o) s.reqs r (q.decided out.errKind (canceled s q.cfg)) q hq
@@ -529,6 +583,13 @@ theorem inv_after {s s' : State} {r} (hi : Inv s) (hs : stepAfter s r = some s')
               have := hi.req_ok q (mem_of_get hq)
               simp only [decided_incs, decided_hist, decided_inFlight]
               simp [hpc, Pc.inFlight, b2n] at this ⊢; omega
+          · intro q' hq'
+            rcases mem_set_cases hq' with hm | hm
+            · exact hi.retry_ok q' hm
+            · subst hm
+              have := hi.retry_ok q (mem_of_get hq)
+              simp [hpc, Pc.notStart] at this
+              exact decided_retry_ok q _ _ this.1 (by omega)
           · intro o
             have h1 := hi.attempts_eq o
             have h2 := total_set (aboutToCountW o) s.reqs r (q.decided out.errKind (canceled s q.cfg)) q hq
@@ -539,7 +600,7 @@ theorem inv_after {s s' : State} {r} (hi : Inv s) (hs : stepAfter s r = some s')
       next hk =>
         -- success / cancel / handler error / panic: return without counting
         simp at hs; subst hs
-        refine ⟨?_, hi.fails_eq, ?_, hi.forgotten_due, hi.entry_ok, ?_, ?_, hi.src_countable⟩
+        refine ⟨?_, hi.fails_eq, ?_, hi.forgotten_due, hi.entry_ok, ?_, ?_, ?_, hi.src_countable⟩
         · intro o
           have h1 := hi.inflight_eq o
           have h2 := total_set (inFlightW o) s.reqs r { q with pc := .done } q hq
@@ -556,6 +617,12 @@ theorem inv_after {s s' : State} {r} (hi : Inv s) (hs : stepAfter s r = some s')
           · subst hm
             have := hi.req_ok q (mem_of_get hq)
             simp [hpc, Pc.inFlight, b2n] at this ⊢; omega
+        · intro q' hq'
+          rcases mem_set_cases hq' with hm | hm
+          · exact hi.retry_ok q' hm
+          · subst hm
+            have := hi.retry_ok q (mem_of_get hq)
+            simp [hpc, Pc.notStart, b2n] at this ⊢; omega
         · intro o
           have h1 := hi.attempts_eq o
           have h2 := total_set (aboutToCountW o) s.reqs r { q with pc := .done } q hq
@@ -580,7 +647,7 @@ theorem inv_spawn {s s' : State} {r i} (hi : Inv s) (hs : stepSpawn s r i = some
       next hok =>
         obtain ⟨hst, hhost, hcfg⟩ := spawnOk_iff.mp hok
         simp at hs; subst hs
-        refine ⟨?_, ?_, ?_, ?_, ?_, ?_, ?_, ?_⟩
+        refine ⟨?_, ?_, ?_, ?_, ?_, ?_, ?_, ?_, ?_⟩
         · intro o
           have h1 := hi.inflight_eq o
           have h2 := total_set (inFlightW o) s.reqs r { q with pc := .sending h } q hq
@@ -611,6 +678,12 @@ theorem inv_spawn {s s' : State} {r i} (hi : Inv s) (hs : stepSpawn s r i = some
           · subst hm
             have := hi.req_ok q (mem_of_get hq)
             simp [hpc, Pc.inFlight] at this ⊢; omega
+        · intro q' hq'
+          rcases mem_set_cases hq' with hm | hm
+          · exact hi.retry_ok q' hm
+          · subst hm
+            have := hi.retry_ok q (mem_of_get hq)
+            simp [hpc, Pc.notStart, b2n] at this ⊢; omega
         · intro o
           have h1 := hi.attempts_eq o
           have h2 := total_set (aboutToCountW o) s.reqs r { q with pc := .sending h } q hq
@@ -629,7 +702,7 @@ theorem inv_spawn {s s' : State} {r i} (hi : Inv s) (hs : stepSpawn s r i = some
       next hok =>
         obtain ⟨hst, hhost, hcfg⟩ := spawnOk_iff.mp hok
         simp at hs; subst hs
-        refine ⟨?_, ?_, ?_, ?_, ?_, ?_, ?_, ?_⟩
+        refine ⟨?_, ?_, ?_, ?_, ?_, ?_, ?_, ?_, ?_⟩
         · intro o
           have h1 := hi.inflight_eq o
           have h2 := total_set (inFlightW o) s.reqs r (q.decided q.lastErr (canceled s q.cfg)) q hq
@@ -663,6 +736,13 @@ theorem inv_spawn {s s' : State} {r i} (hi : Inv s) (hs : stepSpawn s r i = some
             have := hi.req_ok q (mem_of_get hq)
             simp only [decided_incs, decided_hist, decided_inFlight]
             simp [hpc, Pc.inFlight] at this ⊢; omega
+        · intro q' hq'
+          rcases mem_set_cases hq' with hm | hm
+          · exact hi.retry_ok q' hm
+          · subst hm
+            have := hi.retry_ok q (mem_of_get hq)
+            simp [hpc, Pc.notStart] at this
+            exact decided_retry_ok q _ _ this.1 (by omega)
         · intro o
           have h1 := hi.attempts_eq o
           have h2 := total_set (aboutToCountW o) s.reqs r (q.decided q.lastErr (canceled s q.cfg)) q hq
@@ -691,7 +771,7 @@ theorem inv_forget {s s' : State} {i} (hi : Inv s) (hs : stepForget s i = some s
     next hok =>
       obtain ⟨hst, hdue⟩ := forgetOk_iff.mp hok
       simp at hs; subst hs
-      refine ⟨hi.inflight_eq, ?_, ?_, ?_, ?_, hi.req_ok, ?_, ?_⟩
+      refine ⟨hi.inflight_eq, ?_, ?_, ?_, ?_, hi.req_ok, hi.retry_ok, ?_, ?_⟩
       · intro o
         have h1 := hi.fails_eq o
         have h2 := total_set (pendingW o) s.log i { e with st := .forgotten } e he
